@@ -306,8 +306,9 @@ def materialise_crate(fam, tier, cdir, extra_deps="", main_rs=None, build_rs=Non
             f.write(text)
 
     put(os.path.join(cd, "Cargo.toml"), open(os.path.join(tpl, "Cargo.toml.in")).read()
-        .replace("@NAME@", "%s_%s" % (fam, tier)).replace("@EXTRA_DEPS@", extra_deps).replace("/repo/", REPO + "/")
-        .replace("/verif/harness/common", os.path.join(WORK, "ws", "_common")))
+        .replace("@NAME@", "%s_%s" % (fam, tier)).replace("/repo/", REPO + "/")
+        .replace("/verif/harness/common", os.path.join(WORK, "ws", "_common"))
+        .replace("@EXTRA_DEPS@", extra_deps.replace("@REPO@", REPO)))
     put(os.path.join(cd, "build.rs"), open(build_rs or os.path.join(tpl, "build.rs")).read())
     put(os.path.join(cd, "src", "main.rs"), open(main_rs or os.path.join(tpl, "main.rs")).read())
     put(os.path.join(cd, "corpus_dir"), cdir + "\n")
